@@ -555,6 +555,15 @@ def _seed(ch):
 
 def gen_perturbation(ch, m, mode, harsh):
     spec = optsim.gen_variable(ch, m)
+    free = [k_ for k_ in range(1, m.n - 1)
+            if m.surfs[k_]['kind'] in ('polynomial', 'chebyshev')]
+    if free and ch.chance(0.4):
+        # coefficient tolerances on freeform surfaces, including ones whose
+        # nominal value is zero
+        k_ = ch.pick(free, tag='ffsurf')
+        spec = {'type': {'polynomial': 'polynomial_coeff',
+                         'chebyshev': 'chebyshev_coeff'}[m.surfs[k_]['kind']],
+                'k': k_, 'coeff_index': [ch.randint(0, 2), ch.randint(0, 2)]}
     if spec is None:
         return None
     for k in ('min', 'max', 'scaled', 'step'):
